@@ -45,6 +45,17 @@ pub fn cmd_searcher(args: &[String]) {
         writeln!(w, "S {} {} {}", id, crate::api_cps_hex(p), hex(h.as_bytes())).unwrap();
         let ms: Vec<String> = re.find_iter(h).map(|m| format!("{} {}", m.start(), m.end())).collect();
         writeln!(w, "I {} {}", ms.len(), ms.join(" ")).unwrap();
+        // find_from(..).next() from every char boundary (what the forward searcher consults)
+        let mut gl = String::from("G");
+        let mut bs: Vec<usize> = h.char_indices().map(|(i, _)| i).collect();
+        bs.push(h.len());
+        for p in bs {
+            match re.find_from(h, p).next() {
+                Some(m) => gl.push_str(&format!(" {} {} {}", p, m.start(), m.end())),
+                None => gl.push_str(&format!(" {} - -", p)),
+            }
+        }
+        writeln!(w, "{}", gl).unwrap();
         let mut s = (&re).into_searcher(h);
         let mut line = String::from("F");
         for _ in 0..bound {
